@@ -149,7 +149,9 @@ class SensitiveWordAnonymizer(object):
         # Canonicalize reserved and sensitive words so case doesn't matter for
         # internal comparisons
         self.reserved_words = {w.lower() for w in reserved_words}
-        sensitive_words_ = {w.lower() for w in sensitive_words}
+        # An empty word (e.g. from a trailing comma in "-w foo,") matches everywhere
+        # and would insert a pseudonym between all characters, so ignore it
+        sensitive_words_ = {w.lower() for w in sensitive_words if w}
 
         self.salt = salt
         self.sens_regex = self._generate_sensitive_word_regex(sensitive_words_)
@@ -198,6 +200,9 @@ class SensitiveWordAnonymizer(object):
         # alphabetically) so the result does not depend on set iteration order
         # when words overlap (e.g. "sea" and "seattle")
         ordered_words = sorted(sensitive_words, key=lambda w: (-len(w), w))
+        if not ordered_words:
+            # Nothing to look for: a pattern that never matches
+            return re.compile(r"(?!)")
         return re.compile(
             "({})".format("|".join(re.escape(w) for w in ordered_words)),
             re.IGNORECASE,
